@@ -607,6 +607,40 @@ theorem catflip_map_congr (L : List ℝ) (g1 : ℝ → X) (r1 : X) (r2 : R)
     simp only [Function.comp, hgt]
 
 
+/-! ### the last entry of a running sum (`cws.last()`) -/
+
+theorem scanL_real_last (as : List ℝ) (hne : as ≠ []) :
+    ∀ c0 : ℝ, (scanL (fun (a x : ℝ) => a + x) c0 as).getLast? = some (c0 + as.sum) := by
+  induction as with
+  | nil => exact absurd rfl hne
+  | cons a t ih =>
+    intro c0
+    cases t with
+    | nil => simp [scanL]
+    | cons b t' =>
+      have := ih (by simp) (c0 + a)
+      simp only [scanL] at this ⊢
+      rw [List.getLast?_cons_cons, this]
+      simp [add_assoc]
+
+/-! ### an integer model of binary64 round-to-nearest-even, for the scaling `r = u · total` of `pflips` / `ln_pflips`
+
+  A positive normal binary64 number is `m · 2^e` with `2^52 ≤ m < 2^53`; the variates are `k / 2^53` with `k < 2^53`
+  (`std01`, `open01`; `uniform01` is `k / 2^52`, `k < 2^52`).  The exact product is `(k·m / 2^53) · 2^e`; `rne N s` is
+  `N / 2^s` rounded to the nearest integer, ties to even. -/
+
+/-- `N / 2^s` rounded to nearest, ties to even -/
+def rne (N s : Nat) : Nat :=
+  let q := N / 2 ^ s
+  let rem := N % 2 ^ s
+  if 2 * rem > 2 ^ s ∨ (2 * rem = 2 ^ s ∧ q % 2 = 1) then q + 1 else q
+
+theorem rne_mono53 (N N' : Nat) (h : N ≤ N') : rne N 53 ≤ rne N' 53 := by
+  unfold rne
+  simp only []
+  norm_num
+  split_ifs <;> omega
+
 /-! ### helper lemmas of Props/C13B.lean: variate maps, `pflips1`, Gumbel-max comparators -/
 
 section
@@ -635,84 +669,115 @@ theorem pflips1_eq (ws : List R) (u : R) (hne : ws ≠ []) :
     | cons _ _ => rfl
   simp only [this, Bool.false_eq_true, if_false]
 
-/-- item of the `max_by` of `ln_pflip`: weight finite or `-inf`, `l = ln u` finite and negative (i.e. `0 < u < 1`) -/
-def GoodLn (it : Nat × X × X) : Prop := IsFinOrNinf it.2.1 ∧ ∃ l : ℝ, it.2.2 = fin l ∧ l < 0
+theorem exists_ne_ninf_of_fins (lnw : List X) (hf : fins lnw ≠ []) : ∃ w ∈ lnw, w ≠ ninf := by
+  induction lnw with
+  | nil => exact absurd rfl hf
+  | cons w t ih =>
+    cases w with
+    | ninf =>
+      obtain ⟨y, hy, h⟩ := ih (by simpa using hf)
+      exact ⟨y, by simp [hy], h⟩
+    | nan => exact ⟨nan, by simp, by simp⟩
+    | pinf => exact ⟨pinf, by simp, by simp⟩
+    | fin a => exact ⟨fin a, by simp, by simp⟩
 
-theorem lnCmp_ninf_fin (i j : Nat) (b l1 l2 : ℝ) (h1 : l1 < 0) :
-    lnPflipCmp (i, ninf, fin l1) (j, fin b, fin l2) = some .lt := by
-  simp [lnPflipCmp, pcmp_fin, h1]
+/-- item of the `max_by` of `ln_pflip`: log-weight finite or `-inf`, `g = ln(-ln u)` finite (i.e. `0 < u < 1`) -/
+def GoodLn (it : Nat × X × X) : Prop := IsFinOrNinf it.2.1 ∧ ∃ g : ℝ, it.2.2 = fin g
 
-theorem lnCmp_fin_ninf (i j : Nat) (a l1 l2 : ℝ) (h2 : l2 < 0) :
-    lnPflipCmp (i, fin a, fin l1) (j, ninf, fin l2) = some .gt := by
-  simp [lnPflipCmp, h2.ne, not_lt.mpr h2.le, pcmp_fin_ninf]
+theorem lnCmp_ninf_fin (i j : Nat) (b g1 g2 : ℝ) :
+    lnPflipCmp (i, ninf, fin g1) (j, fin b, fin g2) = some .lt := by
+  simp [lnPflipCmp, pcmp, RealLike.ge]
 
-theorem lnCmp_fin_fin (i j : Nat) (a b l1 l2 : ℝ) :
-    lnPflipCmp (i, fin a, fin l1) (j, fin b, fin l2) ≠ none := by
-  simp only [lnPflipCmp, X.fin_sub_fin, X.exp_fin, X.fin_mul_fin]
+theorem lnCmp_fin_ninf (i j : Nat) (a g1 g2 : ℝ) :
+    lnPflipCmp (i, fin a, fin g1) (j, ninf, fin g2) = some .gt := by
+  simp [lnPflipCmp, pcmp_fin_ninf]
+
+theorem lnCmp_ninf_ninf (i j : Nat) (g1 g2 : ℝ) :
+    lnPflipCmp (i, ninf, fin g1) (j, ninf, fin g2) = some .eq := by
+  simp [lnPflipCmp, pcmp, RealLike.ge]
+
+theorem lnCmp_fin_fin (i j : Nat) (a b g1 g2 : ℝ) :
+    lnPflipCmp (i, fin a, fin g1) (j, fin b, fin g2) ≠ none := by
+  simp only [lnPflipCmp, X.fin_sub_fin]
   exact pcmp_fin_ne_none _ _
 
-theorem lnCmp_ne_none (x y : Nat × X × X) (hx : GoodLn x) (hy : GoodLn y)
-    (hn : ¬ (x.2.1 = ninf ∧ y.2.1 = ninf)) : lnPflipCmp x y ≠ none := by
-  obtain ⟨i, w1, l1'⟩ := x
-  obtain ⟨j, w2, l2'⟩ := y
-  obtain ⟨hw1, l1, rfl, hl1⟩ := hx
-  obtain ⟨hw2, l2, rfl, hl2⟩ := hy
-  simp only at hw1 hw2 hn
+/-- with the Gumbel keys no comparison of `ln_pflip` can panic: `-inf − finite = -inf` is comparable with everything -/
+theorem lnCmp_ne_none (x y : Nat × X × X) (hx : GoodLn x) (hy : GoodLn y) : lnPflipCmp x y ≠ none := by
+  obtain ⟨i, w1, g1'⟩ := x
+  obtain ⟨j, w2, g2'⟩ := y
+  obtain ⟨hw1, g1, e1⟩ := hx
+  obtain ⟨hw2, g2, e2⟩ := hy
+  simp only at hw1 hw2 e1 e2
+  subst e1 e2
   cases w1 <;> cases w2 <;> simp_all
-  · rw [lnCmp_ninf_fin _ _ _ _ _ hl1]; simp
-  · rw [lnCmp_fin_ninf _ _ _ _ _ hl2]; simp
+  · rw [lnCmp_ninf_ninf]; simp
+  · rw [lnCmp_ninf_fin]; simp
+  · rw [lnCmp_fin_ninf]; simp
   · exact lnCmp_fin_fin _ _ _ _ _ _
 
-/-- the loop of `ln_pflip` on good items with at most one `-inf` weight: no comparison panics, the winner is one of
-    the items, and it is not the `-inf` item unless that is the only item -/
+/-- the loop of `ln_pflip` on good items (ANY number of `-inf` log-weights): no comparison panics, the winner is one of
+    the items, and it is a finite-weight item as soon as there is one -/
 theorem lnPflipLoop_total (t : List (Nat × X × X)) (best : Nat × X × X)
-    (hg : ∀ it ∈ best :: t, GoodLn it)
-    (hp : (best :: t).Pairwise (fun a b => ¬ (a.2.1 = ninf ∧ b.2.1 = ninf))) :
+    (hg : ∀ it ∈ best :: t, GoodLn it) :
     ∃ b, maxByLoop lnPflipCmp t best = some b ∧ b ∈ best :: t ∧
-      ((best.2.1 ≠ ninf ∨ t ≠ []) → b.2.1 ≠ ninf) := by
-  have hpc : (best :: t).Pairwise (fun x y => lnPflipCmp x y ≠ none) :=
-    hp.imp_of_mem (fun {a b} ha hb hab => lnCmp_ne_none a b (hg a ha) (hg b hb) hab)
+      ((∃ y ∈ best :: t, y.2.1 ≠ ninf) → b.2.1 ≠ ninf) := by
+  have hpc : (best :: t).Pairwise (fun x y => lnPflipCmp x y ≠ none) := by
+    rw [List.pairwise_iff_forall_sublist]
+    intro a b hab
+    exact lnCmp_ne_none a b (hg a (hab.subset (by simp))) (hg b (hab.subset (by simp)))
   obtain ⟨b, hb, hm⟩ := maxByLoop_some lnPflipCmp t best hpc
   refine ⟨b, hb, hm, fun hfin => ?_⟩
   have key := maxByLoop_inv lnPflipCmp
-    (fun best t => (∀ it ∈ best :: t, GoodLn it) ∧
-      (best :: t).Pairwise (fun a b => ¬ (a.2.1 = ninf ∧ b.2.1 = ninf)) ∧ (best.2.1 ≠ ninf ∨ t ≠ []))
-    ?_ ?_ t best b ⟨hg, hp, hfin⟩ hb
-  · rcases key.2.2 with h | h
+    (fun best t => (∀ it ∈ best :: t, GoodLn it) ∧ (best.2.1 ≠ ninf ∨ ∃ y ∈ t, y.2.1 ≠ ninf))
+    ?_ ?_ t best b ⟨hg, ?_⟩ hb
+  · rcases key.2 with h | ⟨y, hy, _⟩
     · exact h
-    · exact absurd rfl h
-  · -- `Greater`: the current best stays; it cannot be the `-inf` item
-    rintro best y t ⟨hg, hp, _⟩ hc
-    refine ⟨fun it hit => hg it ?_, hp.sublist (List.Sublist.cons_cons _ (List.sublist_cons_self _ _)), Or.inl ?_⟩
+    · simp at hy
+  · -- `Greater`: the current best stays; a `-inf` best is never `Greater` than a finite-weight item
+    rintro best y t ⟨hg, hor⟩ hc
+    refine ⟨fun it hit => hg it ?_, ?_⟩
     · rcases List.mem_cons.mp hit with rfl | h
       · simp
       · simp [h]
-    · intro hb1
-      have hny : y.2.1 ≠ ninf := fun hy => (List.pairwise_cons.mp hp).1 y (by simp) ⟨hb1, hy⟩
-      obtain ⟨i, w1, l1'⟩ := best
-      obtain ⟨j, w2, l2'⟩ := y
-      obtain ⟨_, l1, e1, hl1⟩ := hg (i, w1, l1') (by simp)
-      obtain ⟨hw2, l2, e2, _⟩ := hg (j, w2, l2') (by simp)
-      simp only at hb1 hny hw2 e1 e2
-      subst hb1 e1 e2
-      cases w2 <;> simp_all
-      rw [lnCmp_ninf_fin _ _ _ _ _ hl1] at hc
-      simp at hc
-  · -- not `Greater`: `y` becomes the best; it cannot be the `-inf` item
-    rintro best y t o ⟨hg, hp, _⟩ hc ho
-    refine ⟨fun it hit => hg it (by simp [hit]), (List.pairwise_cons.mp hp).2, Or.inl ?_⟩
-    intro hy1
-    have hnb : best.2.1 ≠ ninf := fun hb1 => (List.pairwise_cons.mp hp).1 y (by simp) ⟨hb1, hy1⟩
-    obtain ⟨i, w1, l1'⟩ := best
-    obtain ⟨j, w2, l2'⟩ := y
-    obtain ⟨hw1, l1, e1, _⟩ := hg (i, w1, l1') (by simp)
-    obtain ⟨_, l2, e2, hl2⟩ := hg (j, w2, l2') (by simp)
-    simp only at hy1 hnb hw1 e1 e2
-    subst hy1 e1 e2
-    cases w1 <;> simp_all
-    rw [lnCmp_fin_ninf _ _ _ _ _ hl2] at hc
-    simp at hc
-    exact ho hc.symm
+    · rcases hor with h | ⟨y', hy', h⟩
+      · exact Or.inl h
+      · rcases List.mem_cons.mp hy' with rfl | hy'
+        · left
+          intro hb1
+          obtain ⟨i, w1, g1'⟩ := best
+          obtain ⟨j, w2, g2'⟩ := y'
+          obtain ⟨_, g1, e1⟩ := hg (i, w1, g1') (by simp)
+          obtain ⟨hw2, g2, e2⟩ := hg (j, w2, g2') (by simp)
+          simp only at hb1 h hw2 e1 e2
+          subst hb1 e1 e2
+          cases w2 <;> simp_all
+          rw [lnCmp_ninf_fin] at hc
+          simp at hc
+        · exact Or.inr ⟨y', hy', h⟩
+  · -- not `Greater`: `y` becomes the best; a `-inf` item never displaces a finite-weight best
+    rintro best y t o ⟨hg, hor⟩ hc ho
+    refine ⟨fun it hit => hg it (by simp [hit]), ?_⟩
+    rcases hor with h | ⟨y', hy', h⟩
+    · by_cases hy1 : y.2.1 = ninf
+      · exfalso
+        obtain ⟨i, w1, g1'⟩ := best
+        obtain ⟨j, w2, g2'⟩ := y
+        obtain ⟨hw1, g1, e1⟩ := hg (i, w1, g1') (by simp)
+        obtain ⟨_, g2, e2⟩ := hg (j, w2, g2') (by simp)
+        simp only at hy1 h hw1 e1 e2
+        subst hy1 e1 e2
+        cases w1 <;> simp_all
+        rw [lnCmp_fin_ninf] at hc
+        simp at hc
+        exact ho hc.symm
+      · exact Or.inl hy1
+    · rcases List.mem_cons.mp hy' with rfl | hy'
+      · exact Or.inl h
+      · exact Or.inr ⟨y', hy', h⟩
+  · obtain ⟨y, hy, h⟩ := hfin
+    rcases List.mem_cons.mp hy with rfl | hy
+    · exact Or.inl h
+    · exact Or.inr ⟨y, hy, h⟩
 
 /-- item of the `max_by` of `gumbel_pflip`: finite non-negative weight, `l = ln u` finite and negative -/
 def GoodG (it : Nat × X × X) : Prop := ∃ w l : ℝ, it.2.1 = fin w ∧ 0 ≤ w ∧ it.2.2 = fin l ∧ l < 0
